@@ -378,7 +378,13 @@ def symlist_index(I, L, idx, node, exc=IndexError):
     n = L.n
     in_range = z3.And(zi >= -n, zi < n)
     if getattr(I, 'generic_depth', 0):
-        if not I.st.implied(in_range):
+        # usually a consequence of the range of the bound index alone: a tiny query, independent of the (possibly
+        # string-heavy) path condition
+        s0 = z3.Solver()
+        s0.set('timeout', 2000)
+        s0.add(*getattr(I, 'generic_ranges', []))
+        s0.add(z3.Not(in_range))
+        if s0.check() != z3.unsat and not I.st.implied(in_range):
             raise Unsupported("index into a list of symbolic length not known to be in range inside a quantified body")
     elif not I.branch(in_range):
         raise PyRaise(exc, lineno=getattr(node, 'lineno', None))
